@@ -68,6 +68,13 @@ pub fn p4() -> OptionParser<(Option<u32>, u32)> {
     construct!(b, x).to_options()
 }
 
+/// strict optional positional followed by an unrestricted one, and a strict positional under `fallback`
+pub fn p6() -> OptionParser<(Option<u32>, u32)> {
+    let a = positional::<u32>("A").strict().optional();
+    let b = positional::<u32>("B");
+    construct!(a, b).to_options()
+}
+
 /// unrestricted positionals only
 pub fn p5() -> OptionParser<(u32, Vec<u32>)> {
     let x = positional::<u32>("X");
